@@ -85,12 +85,15 @@ def one(rnd, work, k):
             for _ in range(rnd.randint(1, 2)):
                 fails.add((rnd.choice(['x'] + names), rnd.choice(ids)))
         F.FAIL.clear()
-        F.FAIL.update(fails)
+        F.INTERRUPT.clear()
+        # the user's function may also be interrupted (Ctrl-C): whatever was computed so far is not a shard
+        interrupted = bool(fails) and rnd.random() < 0.4
+        (F.INTERRUPT if interrupted else F.FAIL).update(fails)
         del F.LOG[:]
         try:
             r = {'val': getattr(ds, col)(key)}
-        except F.UserError as e:
-            r = {'exc': 'user', 'msg': str(e)}
+        except (F.UserError, KeyboardInterrupt) as e:
+            r = {'exc': 'user', 'msg': str(e), 'interrupt': isinstance(e, KeyboardInterrupt)}
         except ValueError as e:
             r = {'exc': 'value', 'msg': str(e)[:80]}
         except BaseException as e:  # noqa
@@ -103,6 +106,7 @@ def one(rnd, work, k):
                    'res': r, 'log': list(F.LOG), 'disk': disk_entries(root)})
         rec['ops'].append(op)
     F.FAIL.clear()
+    F.INTERRUPT.clear()
     shutil.rmtree(root, ignore_errors=True)
     return rec
 
